@@ -7,7 +7,7 @@ RULE = ("cases = corpus (D7 reproducer) + seeded cases: a from a short history o
 
 CFG = {
     "gen_profiles": ["C18"],
-    "cases": {"quick": 220, "thorough": 3000},
+    "cases": {"quick": 700, "thorough": 7000},
     "compare": "full",
     "rule": RULE,
     "nontrivial": lambda body, mout: any("hex:3b30" in op[:60] for op in body) or any((" nc=" in o and " nc=0 " not in o and " nc=1 " not in o) for o in mout),
